@@ -14,6 +14,7 @@ import (
 	"fmt"
 	"sort"
 	"sync"
+	"sync/atomic"
 	"testing"
 	"time"
 
@@ -89,6 +90,9 @@ var linModel = porcupine.Model{
 	},
 }
 
+// set by linRunHistory for the entry point's counters
+var linSwaps, linRefreshMisses int64
+
 func linRunHistory(rng *vRand, seed int64, idx int64) ([]linOp, string) {
 	verifClockOn = false
 	n := 2 + rng.Intn(3)
@@ -96,6 +100,14 @@ func linRunHistory(rng *vRand, seed int64, idx int64) ([]linOp, string) {
 	opsPer := 15 + rng.Intn(30)
 	nKeys := 1 + rng.Intn(3)
 	cp := &pb.ChannelPoolConfig{MinSize: uint32(n), MaxSize: uint32(n), MaxConcurrentStreamsLowWatermark: 1000}
+	// every other history also has a refresher: the serialized "gRPC" goroutine
+	// replaces connections of channels (transparent refresh) while the workers run
+	swaps := 0
+	if idx%2 == 1 {
+		swaps = 3 + rng.Intn(8)
+		cp.UnresponsiveCalls = 1
+		cp.UnresponsiveDetectionMs = 1
+	}
 	if rng.Bool() {
 		cp.BindPickStrategy = pb.ChannelPoolConfig_ROUND_ROBIN
 	}
@@ -109,20 +121,117 @@ func linRunHistory(rng *vRand, seed int64, idx int64) ([]linOp, string) {
 		b.UpdateSubConnState(c, balancer.SubConnState{ConnectivityState: connectivity.Connecting})
 		b.UpdateSubConnState(c, balancer.SubConnState{ConnectivityState: connectivity.Ready})
 	}
-	p := cc.picker(rng, 0, nil)
+	p0 := cc.picker(rng, 0, nil)
 	base := time.Now()
 	now := func() int64 { return int64(time.Since(base)) }
 	logs := make([][]linOp, workers)
+	// connection -> logical channel (a replacement belongs to the channel whose
+	// connection it replaces); written by the refresher before the replacement
+	// can be returned by any pick
+	var chanMap sync.Map
+	for _, c := range cc.snapshotConns() {
+		chanMap.Store(c.id, c.id)
+	}
+	chanOf := func(sc balancer.SubConn) int {
+		if v, ok := chanMap.Load(sc.(*ssConn).id); ok {
+			return v.(int)
+		}
+		return -2 // a connection the harness was never told about
+	}
+	var pause, paused, active, refresherDone, swapsDone, refreshMisses int32
+	active = int32(workers)
+	if swaps == 0 {
+		refresherDone = 1
+	}
 	ssInstallYield(uint64(seed)*131+uint64(idx), 25)
 	var wg sync.WaitGroup
 	start := make(chan struct{})
+	if swaps > 0 {
+		wg.Add(1)
+		go func() {
+			defer wg.Done()
+			defer atomic.StoreInt32(&refresherDone, 1)
+			r := vNewRand(seed, "lin-refresher", idx)
+			<-start
+			for s := 0; s < swaps; s++ {
+				time.Sleep(time.Duration(50+r.Intn(300)) * time.Microsecond)
+				// quiet moment: the detector needs "no response for more than the window"
+				atomic.StoreInt32(&pause, 1)
+				t0 := time.Now()
+				for atomic.LoadInt32(&paused) < atomic.LoadInt32(&active) && time.Since(t0) < 2*time.Second {
+					time.Sleep(20 * time.Microsecond)
+				}
+				if atomic.LoadInt32(&active) == 0 {
+					atomic.StoreInt32(&pause, 0)
+					return
+				}
+				dctx, cancel := context.WithDeadline(context.Background(), time.Now().Add(-time.Second))
+				pr, err := cc.picker(r, 0, nil).Pick(balancer.PickInfo{FullMethodName: "/v/plain", Ctx: &ssCtx{Context: dctx}})
+				if err != nil {
+					cancel()
+					atomic.StoreInt32(&pause, 0)
+					continue
+				}
+				ch := chanOf(pr.SubConn)
+				time.Sleep(4 * time.Millisecond)
+				before := len(cc.snapshotConns())
+				pr.Done(balancer.DoneInfo{Err: ssDeadlineErr})
+				cancel()
+				conns := cc.snapshotConns()
+				if len(conns) != before+1 {
+					atomic.AddInt32(&refreshMisses, 1)
+					atomic.StoreInt32(&pause, 0)
+					continue
+				}
+				repl := conns[len(conns)-1]
+				chanMap.Store(repl.id, ch)
+				atomic.StoreInt32(&pause, 0)
+				// the replacement connects while the workers run; READY = take-over
+				b.UpdateSubConnState(repl, balancer.SubConnState{ConnectivityState: connectivity.Connecting})
+				time.Sleep(time.Duration(r.Intn(200)) * time.Microsecond)
+				rmBefore := atomic.LoadInt64(&cc.rmCalls)
+				b.UpdateSubConnState(repl, balancer.SubConnState{ConnectivityState: connectivity.Ready})
+				if atomic.LoadInt64(&cc.rmCalls) > rmBefore {
+					atomic.AddInt32(&swapsDone, 1)
+					// gRPC reports SHUTDOWN for a removed connection
+					cc.mu.Lock()
+					q := cc.removedQ
+					cc.removedQ = nil
+					cc.mu.Unlock()
+					for _, old := range q {
+						b.UpdateSubConnState(old, balancer.SubConnState{ConnectivityState: connectivity.Shutdown})
+					}
+				}
+			}
+		}()
+	}
+	maxOps := opsPer
+	if swaps > 0 {
+		maxOps = 600
+	}
 	for w := 0; w < workers; w++ {
 		wg.Add(1)
 		go func(w int) {
 			defer wg.Done()
+			defer atomic.AddInt32(&active, -1)
 			r := vNewRand(seed, "lin-w", idx*100+int64(w))
 			<-start
-			for i := 0; i < opsPer; i++ {
+			for i := 0; i < maxOps; i++ {
+				if i >= opsPer && atomic.LoadInt32(&refresherDone) == 1 {
+					break
+				}
+				if atomic.LoadInt32(&pause) == 1 {
+					atomic.AddInt32(&paused, 1)
+					for atomic.LoadInt32(&pause) == 1 {
+						time.Sleep(20 * time.Microsecond)
+					}
+					atomic.AddInt32(&paused, -1)
+				}
+				// the initial picker (superseded after the first take-over) or the latest one
+				p := p0
+				if r.Intn(2) == 0 {
+					p = cc.picker(r, 0, nil)
+				}
 				key := fmt.Sprintf("K%d", r.Intn(nKeys))
 				switch x := r.Intn(10); {
 				case x < 3: // BIND call completing successfully with key in the reply
@@ -131,7 +240,7 @@ func linRunHistory(rng *vRand, seed int64, idx int64) ([]linOp, string) {
 					if err != nil {
 						continue
 					}
-					ch := pr.SubConn.(*ssConn).id
+					ch := chanOf(pr.SubConn)
 					t0 := now()
 					pr.Done(balancer.DoneInfo{})
 					logs[w] = append(logs[w], linOp{client: w, in: linIn{Kind: "bind", Key: key, Ch: ch}, call: t0, ret: now()})
@@ -142,7 +251,7 @@ func linRunHistory(rng *vRand, seed int64, idx int64) ([]linOp, string) {
 					t1 := now()
 					out := -1
 					if err == nil {
-						out = pr.SubConn.(*ssConn).id
+						out = chanOf(pr.SubConn)
 					}
 					logs[w] = append(logs[w], linOp{client: w, in: linIn{Kind: "read", Key: key}, out: out, call: t0, ret: t1})
 					if err != nil {
@@ -162,7 +271,7 @@ func linRunHistory(rng *vRand, seed int64, idx int64) ([]linOp, string) {
 					t1 := now()
 					out := -1
 					if err == nil {
-						out = pr.SubConn.(*ssConn).id
+						out = chanOf(pr.SubConn)
 						pr.Done(balancer.DoneInfo{})
 					}
 					logs[w] = append(logs[w], linOp{client: w, in: linIn{Kind: "read", Key: key}, out: out, call: t0, ret: t1})
@@ -177,7 +286,8 @@ func linRunHistory(rng *vRand, seed int64, idx int64) ([]linOp, string) {
 	for _, l := range logs {
 		all = append(all, l...)
 	}
-	return all, fmt.Sprintf("channels=%d workers=%d ops/worker=%d keys=%d rr=%v fallback=%v", n, workers, opsPer, nKeys, cp.BindPickStrategy == pb.ChannelPoolConfig_ROUND_ROBIN, cp.FallbackToReady)
+	linSwaps, linRefreshMisses = int64(swapsDone), int64(refreshMisses)
+	return all, fmt.Sprintf("channels=%d workers=%d ops/worker>=%d keys=%d rr=%v fallback=%v refreshes-completed-meanwhile=%d/%d", n, workers, opsPer, nKeys, cp.BindPickStrategy == pb.ChannelPoolConfig_ROUND_ROBIN, cp.FallbackToReady, swapsDone, swaps)
 }
 
 func TestVerifPoolLin(t *testing.T) {
@@ -208,6 +318,8 @@ func TestVerifPoolLin(t *testing.T) {
 			}
 		}
 		out.hitN("C01.lin-ops", int64(len(ops)))
+		out.hitN("C01.lin-refresh-swaps", linSwaps)
+		out.hitN("C01.lin-refresh-not-triggered", linRefreshMisses)
 		out.hitN("C01.lin-binds", int64(binds))
 		out.hitN("C01.lin-unbinds", int64(unbinds))
 		out.hitN("C01.lin-reads", int64(reads))
